@@ -267,6 +267,9 @@ type Call struct {
 	Params   reflect.Value
 	ParseErr error
 	Panic    string
+	// RawBody: content of a raw (reader) request body, read inside the handler (the
+	// transport closes it once the handler returns)
+	RawBody []byte
 }
 
 // Inst is one API value with stubs installed.
@@ -312,6 +315,11 @@ func NewInst(p *Pkg) *Inst {
 			}
 			if !in.NoParse {
 				c.Params, c.ParseErr, c.Panic = ParseReq(op, args[1])
+				if c.ParseErr == nil && c.Panic == "" && c.Params.IsValid() && c.Params.Kind() == reflect.Struct {
+					if b := c.Params.FieldByName("Body"); b.IsValid() && (b.Type() == readerType || b.Type() == rcType) && !b.IsNil() {
+						c.RawBody, _ = io.ReadAll(b.Interface().(io.Reader))
+					}
+				}
 			}
 			in.Calls = append(in.Calls, c)
 			var resp reflect.Value
